@@ -284,7 +284,7 @@ fn sequential(ctx: &Ctx) {
 /// (id, serial, creation) triples and each carries the creation in force when it was made.
 fn creation_histories(ctx: &Ctx, rng: &mut Rng) {
     for round in 0..ctx.pick(40usize, 2000usize) {
-        let start_creation = *rng.pick(&[1u32, 2, 7, u32::MAX]);
+        let start_creation = *rng.pick(&[0u32, 1, 2, 7, u32::MAX]);
         let alloc = PidAllocator::new(Atom::new("n@h"), start_creation);
         if rng.chance(1, 3) {
             // sometimes close to the id wrap, so that the serial has advanced before a creation returns
@@ -292,7 +292,7 @@ fn creation_histories(ctx: &Ctx, rng: &mut Rng) {
             alloc.next_serial_test_only().store(*rng.pick(&[0u64, 5, (1u64 << 32) - 1]), Ordering::SeqCst);
         }
         let mut in_force = start_creation;
-        let pool = [start_creation, start_creation.wrapping_add(1), 3, 4];
+        let pool = [start_creation, start_creation.wrapping_add(1), 0, 1, 3, 4, u32::MAX];
         let mut seen: HashSet<(u32, u32, u32)> = HashSet::new();
         let mut history: Vec<String> = Vec::new();
         let steps = 4 + rng.below(12);
